@@ -33,6 +33,7 @@ struct GenOpts {
     bool nested_only = false;      // global rules restricted to nested ones (refinement / construction)
     bool transforms = true;
     int wavelet_max_dims = 2;
+    bool optimized_rules = true;   // min-lebesgue / min-delta / max-lebesgue: every further node costs a greedy optimisation
 };
 
 inline const std::vector<std::string> &globalNested() {
@@ -81,10 +82,15 @@ inline Json genMake(Rng &r, const GenOpts &o) {
     if (fam == "global") {
         bool nested = o.nested_only || r.chance(0.65);
         std::string rule = nested ? r.pick(globalNested()) : r.pick(globalNonNested());
+        if (!o.optimized_rules && (rule == "min-lebesgue" || rule == "min-delta" || rule == "max-lebesgue")) rule = "rleja";
         m["rule"] = rule;
         m["alpha"] = (rule.find("gegenbauer") != std::string::npos || rule.find("jacobi") != std::string::npos || rule.find("laguerre") != std::string::npos || rule.find("hermite") != std::string::npos) ? r.pick<double>({0.0, 0.5, 1.0, 2.0}) : 0.0;
         m["beta"] = rule.find("jacobi") != std::string::npos ? r.pick<double>({0.0, 0.5, 1.5}) : 0.0;
-    } else if (fam == "sequence") m["rule"] = r.pick(sequenceRules());
+    } else if (fam == "sequence") {
+        std::string rule = r.pick(sequenceRules());
+        if (!o.optimized_rules && (rule == "min-lebesgue" || rule == "min-delta" || rule == "max-lebesgue")) rule = "rleja-shifted";
+        m["rule"] = rule;
+    }
     else if (fam == "localp") {
         m["rule"] = r.pick<std::string>({"localp", "localp", "semi-localp", "localp-zero", "localp-boundary"});
         m["order"] = r.pick<int>({-1, 0, 1, 1, 2, 2, 3, 4});
